@@ -35,7 +35,7 @@ LEVEL_TEXT = ("Exploration of histories: thousands of multi-client operation seq
               "any network event during dry runs, and cookie confinement/replay per client instance.")
 LEVEL_NOTE = "Trusts the recording fake (which replaces only http_open/https_open) and the audit hook as ground truth for 'no network activity'."
 DESIGN_REF = "DESIGN.md §3 C14"
-MIN_COUNTERS = {"quick": {"scenarios": 780, "ops_checked": 2500, "dryrun_ops": 500, "posts_checked": 2500, "cookie_requests_checked": 2500, "loopback_scenarios": 60, "audit_net_events": 3000, "ops_with_transport_failure": 400},
+MIN_COUNTERS = {"quick": {"scenarios": 780, "ops_checked": 2500, "dryrun_ops": 500, "posts_checked": 2200, "cookie_requests_checked": 2200, "loopback_scenarios": 60, "audit_net_events": 3000, "ops_with_transport_failure": 400},
                 "thorough": {"scenarios": 15000, "ops_checked": 50000, "dryrun_ops": 10000, "posts_checked": 50000, "cookie_requests_checked": 50000, "loopback_scenarios": 1200, "audit_net_events": 60000, "ops_with_transport_failure": 8000}}
 
 OPS = ["stmt", "stmtend", "acctinfo", "tax", "profile", "stmt", "acctinfo", "profile-override"]
@@ -46,7 +46,7 @@ def shards(tier):
 
 
 def timeout(tier):
-    return 400 if tier == "quick" else 2400
+    return 900 if tier == "quick" else 5400
 
 
 def clear_cache():
